@@ -5,7 +5,7 @@
    are a group; rot[i].B.perm[i] = B on a spanning set of the conforming B matrices; ROTATIONS = rotations(); right/left multiplication
    and transposition permute each operator list. *)
 From Coq Require Import Reals List Permutation.
-From XV Require Import RealLib Mat3 QS3 SymGroup Tab_sym Gen_symmetry P12_umis P12.
+From XV Require Import RealLib Mat3 QS3 SymGroup Tab_sym Gen_symmetry P12_umis P12 Cell Gen_laue P12_span.
 Import ListNotations.
 
 Theorem C12_tables_ok : forallb (fun k => sym_ok k perm_tab rot_tab rot_cached_tab) [1; 2; 3; 4; 5; 6; 7]%nat = true.
@@ -38,3 +38,19 @@ Print Assumptions C12_umis_invariances.
 Theorem C12_tables_present : forall k, In k [1; 2; 3; 4; 5; 6; 7]%nat -> exists Rq, rots_of k rot_tab = Some Rq.
 Proof. exact tables_present. Qed.
 Print Assumptions C12_tables_present.
+
+(* rot[i].B.perm[i] = B for the B matrix (regenerated laue.form_b_mat) of every cell conforming to the crystal system:
+   conforming k c fixes the equal lengths and the 90 / 120 degree angles of system k (1 triclinic ... 7 cubic; 2 = b-unique monoclinic) *)
+Theorem C12_rot_B_perm_is_B : forall k c P Rq, In k [1; 2; 3; 4; 5; 6; 7]%nat -> valid_cell c -> conforming k c ->
+  perms_of k perm_tab = Some P -> rots_of k rot_tab = Some Rq ->
+  forall i, (i < List.length Rq)%nat ->
+  mmul (mmul (toRm (List.nth i Rq qmI)) (laue_form_b_mat c)) (toRm (List.nth i P qmI)) = laue_form_b_mat c.
+Proof. exact rot_B_perm. Qed.
+Print Assumptions C12_rot_B_perm_is_B.
+Theorem C12_conforming_B_in_span : forall k c, In k [1; 2; 3; 4; 5; 6; 7]%nat -> valid_cell c -> conforming k c ->
+  exists cs, laue_form_b_mat c = lincomb cs (map toRm (b_basis k)).
+Proof. exact conforming_in_span. Qed.
+Print Assumptions C12_conforming_B_in_span.
+Theorem C12_conforming_nonvacuous : valid_cell (mkV6 3 3 5 90 90 120) /\ conforming 6 (mkV6 3 3 5 90 90 120).
+Proof. exact conforming_example. Qed.
+Print Assumptions C12_conforming_nonvacuous.
